@@ -351,6 +351,12 @@ int disasm_6809(
 
       n++;
     }
+
+    // The byte after the 0x10 / 0x11 prefix selected the (unknown)
+    // instruction, so it is part of it.
+    strcpy(instruction, "???");
+
+    return 2;
   }
   else
   {
